@@ -715,7 +715,7 @@ theorem endOutgoing_sync {e : End} (he : EInv e) (hnp : e.s.handshakePending = f
     e.processOutgoing now = .ok (e, []) ∨
     ∃ h p e', e.processOutgoing now = .ok (e', h.encode ++ p) ∧ 1 ≤ e.s.send.level ∧
       SegOk e.s.mtu e.s.send.lastSent tx.remaining h p ∧ h.getAck = e.s.recv.pendingAck ∧
-      e'.s = e.s.afterTx now := by
+      e'.s = e.s.afterTx now ∧ e'.gattMtu = e.gattMtu := by
   obtain ⟨hm20, hm244, _⟩ := he.s.est hest
   unfold End.processOutgoing
   rw [prepTxHandshake_idle hnp]
@@ -726,7 +726,7 @@ theorem endOutgoing_sync {e : End} (he : EInv e) (hnp : e.s.handshakePending = f
   have hack : e.ackStep now = .ok (e, []) ∨
       ∃ h p e', e.ackStep now = .ok (e', h.encode ++ p) ∧ 1 ≤ e.s.send.level ∧
         SegOk e.s.mtu e.s.send.lastSent tx.remaining h p ∧ h.getAck = e.s.recv.pendingAck ∧
-        e'.s = e.s.afterTx now := by
+        e'.s = e.s.afterTx now ∧ e'.gattMtu = e.gattMtu := by
     unfold End.ackStep
     by_cases hdue : e.s.isAckDue now ackTimeoutSecs = true
     · simp only [hdue, if_true]
@@ -738,7 +738,7 @@ theorem endOutgoing_sync {e : End} (he : EInv e) (hnp : e.s.handshakePending = f
           unfold Session.isAckDue at hdue; simp at hdue; simpa using hdue.1
         obtain ⟨hb, hok, hga⟩ := baseHdr_segOk he.s hm20 tx.remaining hp
         rw [prepTxData_emit_eq he.s hf' hb (segLen_le hok hm244).1]
-        exact ⟨_, _, { e with s := e.s.afterTx now }, rfl, notFull_level hf', hok, hga, rfl⟩
+        exact ⟨_, _, { e with s := e.s.afterTx now }, rfl, notFull_level hf', hok, hga, rfl, rfl⟩
     · left; simp only [hdue, Bool.false_eq_true, if_false]
   unfold End.dataStep
   by_cases hd : (!e.sdu.isEmpty && e.s.established) = true
@@ -759,9 +759,9 @@ theorem endOutgoing_sync {e : End} (he : EInv e) (hnp : e.s.handshakePending = f
       simp only [hl.2, if_true]
       by_cases hend : e.off + p.length = e.sdu.length
       · simp only [hend, if_true, hl.2]
-        exact ⟨h, p, { e with s := e.s.afterTx now, sdu := [], off := 0 }, rfl, notFull_level hf', hok, hga, rfl⟩
+        exact ⟨h, p, { e with s := e.s.afterTx now, sdu := [], off := 0 }, rfl, notFull_level hf', hok, hga, rfl, rfl⟩
       · simp only [hend, if_false, hl.2, if_true]
-        exact ⟨h, p, { e with s := e.s.afterTx now, off := e.off + p.length }, rfl, notFull_level hf', hok, hga, rfl⟩
+        exact ⟨h, p, { e with s := e.s.afterTx now, off := e.off + p.length }, rfl, notFull_level hf', hok, hga, rfl, rfl⟩
   · simp only [hd, Bool.false_eq_true, if_false, List.length_nil, Nat.lt_irrefl]
     exact hack
 
@@ -922,7 +922,7 @@ theorem sync_step {W M : Nat} {l : LMon} (hl : LInv l) (hs : Sync W M l) (op : O
     have d2 := hs.dir x.other
     simp only [other_other] at d2
     obtain ⟨hest, hw, hmt⟩ := hs.ses x
-    rcases endOutgoing_sync hm.e dx.pend hest dx.tx l.now with h0 | ⟨h, p, e', h1, hlv, hok, hga, he'⟩
+    rcases endOutgoing_sync hm.e dx.pend hest dx.tx l.now with h0 | ⟨h, p, e', h1, hlv, hok, hga, he', _⟩
     · have hstep : l.step (.poll x) = .ok (l.set x { (l.get x) with e := (l.get x).e }, .none) := by
         simp only [LMon.step, Mon.step, h0, List.length_nil, Nat.lt_irrefl, if_false]
       refine ⟨_, _, hstep, sync_mk x (hsteady hstep) hs.par ?_ ?_ ?_ ?_⟩
